@@ -1,4 +1,5 @@
 use std::cell::Cell;
+use std::panic::{catch_unwind, resume_unwind, AssertUnwindSafe};
 
 use crate::handle_unwind::handle_unwind;
 use crate::lockable::{Lockable, RawLock, Sharable};
@@ -224,26 +225,36 @@ pub fn scoped_try_read<'a, L: RawLock + Sharable + ?Sized, Key: Keyable, R>(
 
 /// Unlocks the already locked locks in order to recover from a panic
 pub unsafe fn attempt_to_recover_writes_from_panic(locks: &[&dyn RawLock]) {
-	handle_unwind(
-		|| {
-			// safety: the caller assumes that these are already locked
-			locks.iter().for_each(|lock| lock.raw_unlock_write());
-		},
-		// if we get another panic in here, we'll just have to poison what remains
-		|| locks.iter().for_each(|l| l.poison()),
-	)
+	// Every lock must be released exactly once, even if releasing one of them
+	// panics (which kills that lock). The first panic continues afterwards.
+	let mut panic = None;
+	for lock in locks {
+		// safety: the caller assumes that these are already locked
+		if let Err(e) = catch_unwind(AssertUnwindSafe(|| lock.raw_unlock_write())) {
+			panic.get_or_insert(e);
+		}
+	}
+
+	if let Some(e) = panic {
+		resume_unwind(e)
+	}
 }
 
 /// Unlocks the already locked locks in order to recover from a panic
 pub unsafe fn attempt_to_recover_reads_from_panic(locked: &[&dyn RawLock]) {
-	handle_unwind(
-		|| {
-			// safety: the caller assumes these are already locked
-			locked.iter().for_each(|lock| lock.raw_unlock_read());
-		},
-		// if we get another panic in here, we'll just have to poison what remains
-		|| locked.iter().for_each(|l| l.poison()),
-	)
+	// Every lock must be released exactly once, even if releasing one of them
+	// panics (which kills that lock). The first panic continues afterwards.
+	let mut panic = None;
+	for lock in locked {
+		// safety: the caller assumes these are already locked
+		if let Err(e) = catch_unwind(AssertUnwindSafe(|| lock.raw_unlock_read())) {
+			panic.get_or_insert(e);
+		}
+	}
+
+	if let Some(e) = panic {
+		resume_unwind(e)
+	}
 }
 
 #[cfg(test)]
